@@ -15,6 +15,15 @@
                    submitted by the leave that brings the count to zero).
      Everything else the group functions do on dg_state (rmw loops, generation loads, futex calls) is accepted as
      group-internal noise at exactly the program points where the model is inside a group call.
+   - the END OF LIFE of the object (src/block.cpp, ~dispatch_block_private_data_s, run by Block_release of the last
+     reference) is modelled: OP_RELEASE / PDtor*: `if (!dbpd_performed) dispatch_group_leave(dbpd_group)` — an object
+     destroyed without ever having been executed leaves its group, which submits every registered notification although
+     nothing completed (confirmed on the library; block.h calls "observed ... and never executed" undefined) — then the
+     release of the group and of a target queue still in dbpd_queue.  CLIENT CONTRACT built into the enabling condition of
+     the release step: it is the LAST reference, i.e. no thread is inside any call on the object (`active s = []`: every
+     caller must own a reference for the duration of its call) and no submission is waiting in a queue (`pendsub s = 0`:
+     a queued continuation holds a reference); after it (`disposed`) nobody but the destroying thread may touch the object
+     (use after free).  Invocations from a queue are tied to submissions by the same counter `pendsub`.
    - priorities / vouchers / thread overrides (no-ops on this platform) are not modelled; the references taken on the
      target queue for dbpd_queue are (ghost `qref`), the queue wake-up of dispatch_block_wait is one abstract
      "consume two references" event.
@@ -59,6 +68,7 @@ Definition OP_CANCEL := 5.
 Definition OP_TESTCANCEL := 6.
 Definition OP_WAIT := 7.
 Definition OP_NOTIFY := 8.
+Definition OP_RELEASE := 10.      (* Block_release of the LAST reference: runs the destructor of the private data *)
 
 Definition hasb (f m : Z) : bool := negb (Z.land f m =? 0).
 Definition raw (e : event) : bool := ek e <? 100.     (* an event reported by the hook (atomic op, futex note) *)
@@ -91,7 +101,11 @@ Inductive pc :=
 | PWaitG (tmo : Z)                    (* inside dispatch_group_wait(dbpd_group, timeout) *)
 | PWaitOut (r : Z)                    (* ret = r: and ~DBF_WAITING (r <> 0) / or DBF_WAITED (r = 0) next *)
 | PNotifyPerf                         (* os_atomic_load2o(dbpd_performed, relaxed) next *)
-| PNotifyG.                           (* inside dispatch_group_notify(dbpd_group, queue, block) *)
+| PNotifyG                            (* inside dispatch_group_notify(dbpd_group, queue, block) *)
+| PDtorPerf                           (* destructor: `if (!dbpd_performed)` next (plain read) *)
+| PDtorLeave                          (* never performed: dispatch_group_leave(dbpd_group) next *)
+| PDtorPost                           (* _os_object_release(dbpd_group), then `if (dbpd_queue)` (plain read) next *)
+| PDtorRel.                           (* _os_object_release_internal_n(dbpd_queue, 2) next *)
 
 (* `out:` of the three invoke functions, with the flags value read at entry *)
 Definition after_body (v : variant) (f : Z) : pc := if hasb f PERFORM then PPost v false else PInc v.
@@ -108,6 +122,7 @@ Definition call_entry (op arg : Z) : option pc :=
   else if op =? OP_TESTCANCEL then Some PTestRead
   else if op =? OP_WAIT then Some (PWaitOr arg)
   else if op =? OP_NOTIFY then Some PNotifyPerf
+  else if op =? OP_RELEASE then Some PDtorPerf
   else None.
 (* after the completion part of an invocation: sync / async give the boost queue back, direct returns *)
 Definition post_end (v : variant) : pc := match v with VSync => PRet 0 | _ => PIdle end.
@@ -126,6 +141,10 @@ Definition tstep_grp (p : pc) (e : event) : option pc :=
       then (if (ea e =? 0) || ((ea e =? 1) && negb (tmo =? FOREVER)) then Some (PWaitOut (ea e)) else None)
       else if raw e then Some p else None
   | PNotifyG => if ek e =? DVG_NOTIFY then Some (PRet 0) else if raw e then Some p else None
+  | PDtorLeave =>
+      if ev_is e DV_ADD MO_RELEASE 0 && (eb e =? G_INTERVAL) && (esz e =? 8)
+      then Some (if Z.land (ea e) G_VALUE_MASK =? 0 then PCrash else PDtorPost) else None
+  | PDtorPost => if raw e then Some p else None      (* tail of the leave; _dispatch_group_dispose's load of dg_state *)
   | _ => None
   end.
 
@@ -184,6 +203,10 @@ Definition tstep (self : Z) (p : pc) (e : event) : option pc :=
       if ev_is e DV_LOAD MO_RELAXED OFF_PERF && (esz e =? 4)
       then Some (if 1 <? s32 (ea e) then PCrash else PNotifyG) else None
   | PNotifyG => None
+  | PDtorPerf => if ev_is e DV_LOAD MO_PLAIN OFF_PERF then Some (if u32 (ea e) =? 0 then PDtorLeave else PDtorPost) else None
+  | PDtorLeave => None
+  | PDtorPost => if ev_is e DV_LOAD MO_PLAIN OFF_QUEUE then Some (if ea e =? 0 then PRet 0 else PDtorRel) else None
+  | PDtorRel => if ev_kind e DVQ_RELEASE2 then Some (PRet 0) else None
   end.
 
 (* atomic sites of the modelled functions in program order: must equal what src2v reads from the source *)
@@ -222,46 +245,71 @@ Record gst := {
   fcnt : Z -> Z;            (* how many times notification i has been submitted *)
   waiter : option Z;        (* the thread between its or-orig of DBF_WAITING and its and / or on the way out *)
   qref : Z;                 (* references on the target queue held for dbpd_queue: retains minus releases *)
-  hands : list Z            (* ghost: the threads that hold such a pair of references "in hand" *)
+  hands : list Z;           (* ghost: the threads that hold such a pair of references "in hand" *)
+  active : list Z;          (* ghost: the threads that are inside a call on the object (not at PIdle) *)
+  pendsub : Z;              (* submissions to a queue (dispatch_async & co) whose invocation has not begun *)
+  disposed : bool;          (* the last reference has been released: the destructor runs / has run *)
+  dtor : option Z;          (* the thread that runs the destructor *)
+  dleave : bool             (* the destructor has left the group (the object was never performed) *)
 }.
 
 Definition init_state (perform : bool) : gst :=
   {| flags := if perform then PERFORM else 0; performed := 0; queue := 0; thread := 0; hasgrp := negb perform;
      gcount := if perform then 0 else 1; pending := []; pcs := fun _ => PIdle; cancelled := false; bodies := 0;
-     fin := 0; ninv := 0; leaves := 0; nreg := 0; fcnt := fun _ => 0; waiter := None; qref := 0; hands := [] |}.
+     fin := 0; ninv := 0; leaves := 0; nreg := 0; fcnt := fun _ => 0; waiter := None; qref := 0; hands := [];
+     active := []; pendsub := 0; disposed := false; dtor := None; dleave := false |}.
 
+Definition pc_idle (p : pc) : bool := match p with PIdle => true | _ => false end.
+(* the threads inside a call: t enters when it leaves PIdle, leaves when it is back at PIdle *)
+Definition act_upd (l : list Z) (t : Z) (p p' : pc) : list Z :=
+  if pc_idle p then (if pc_idle p' then l else t :: l) else (if pc_idle p' then remove Z.eq_dec t l else l).
 Definition set_pc s t p := {| flags := flags s; performed := performed s; queue := queue s; thread := thread s;
   hasgrp := hasgrp s; gcount := gcount s; pending := pending s; pcs := upd (pcs s) t p; cancelled := cancelled s;
   bodies := bodies s; fin := fin s; ninv := ninv s; leaves := leaves s; nreg := nreg s; fcnt := fcnt s;
-  waiter := waiter s; qref := qref s; hands := hands s |}.
+  waiter := waiter s; qref := qref s; hands := hands s;
+  active := act_upd (active s) t (pcs s t) p; pendsub := pendsub s; disposed := disposed s; dtor := dtor s; dleave := dleave s |}.
 Definition set_flags s v c w := {| flags := v; performed := performed s; queue := queue s; thread := thread s;
   hasgrp := hasgrp s; gcount := gcount s; pending := pending s; pcs := pcs s; cancelled := c;
   bodies := bodies s; fin := fin s; ninv := ninv s; leaves := leaves s; nreg := nreg s; fcnt := fcnt s;
-  waiter := w; qref := qref s; hands := hands s |}.
+  waiter := w; qref := qref s; hands := hands s;
+  active := active s; pendsub := pendsub s; disposed := disposed s; dtor := dtor s; dleave := dleave s |}.
 Definition set_perf s v n := {| flags := flags s; performed := v; queue := queue s; thread := thread s;
   hasgrp := hasgrp s; gcount := gcount s; pending := pending s; pcs := pcs s; cancelled := cancelled s;
   bodies := bodies s; fin := fin s; ninv := n; leaves := leaves s; nreg := nreg s; fcnt := fcnt s;
-  waiter := waiter s; qref := qref s; hands := hands s |}.
+  waiter := waiter s; qref := qref s; hands := hands s;
+  active := active s; pendsub := pendsub s; disposed := disposed s; dtor := dtor s; dleave := dleave s |}.
 Definition set_queue s v := {| flags := flags s; performed := performed s; queue := v; thread := thread s;
   hasgrp := hasgrp s; gcount := gcount s; pending := pending s; pcs := pcs s; cancelled := cancelled s;
   bodies := bodies s; fin := fin s; ninv := ninv s; leaves := leaves s; nreg := nreg s; fcnt := fcnt s;
-  waiter := waiter s; qref := qref s; hands := hands s |}.
+  waiter := waiter s; qref := qref s; hands := hands s;
+  active := active s; pendsub := pendsub s; disposed := disposed s; dtor := dtor s; dleave := dleave s |}.
 Definition set_thread s v := {| flags := flags s; performed := performed s; queue := queue s; thread := v;
   hasgrp := hasgrp s; gcount := gcount s; pending := pending s; pcs := pcs s; cancelled := cancelled s;
   bodies := bodies s; fin := fin s; ninv := ninv s; leaves := leaves s; nreg := nreg s; fcnt := fcnt s;
-  waiter := waiter s; qref := qref s; hands := hands s |}.
+  waiter := waiter s; qref := qref s; hands := hands s;
+  active := active s; pendsub := pendsub s; disposed := disposed s; dtor := dtor s; dleave := dleave s |}.
 Definition set_run s b f := {| flags := flags s; performed := performed s; queue := queue s; thread := thread s;
   hasgrp := hasgrp s; gcount := gcount s; pending := pending s; pcs := pcs s; cancelled := cancelled s;
   bodies := b; fin := f; ninv := ninv s; leaves := leaves s; nreg := nreg s; fcnt := fcnt s;
-  waiter := waiter s; qref := qref s; hands := hands s |}.
+  waiter := waiter s; qref := qref s; hands := hands s;
+  active := active s; pendsub := pendsub s; disposed := disposed s; dtor := dtor s; dleave := dleave s |}.
 Definition set_grp s c pd l n fc := {| flags := flags s; performed := performed s; queue := queue s; thread := thread s;
   hasgrp := hasgrp s; gcount := c; pending := pd; pcs := pcs s; cancelled := cancelled s;
   bodies := bodies s; fin := fin s; ninv := ninv s; leaves := l; nreg := n; fcnt := fc;
-  waiter := waiter s; qref := qref s; hands := hands s |}.
+  waiter := waiter s; qref := qref s; hands := hands s;
+  active := active s; pendsub := pendsub s; disposed := disposed s; dtor := dtor s; dleave := dleave s |}.
 Definition set_qref s v h := {| flags := flags s; performed := performed s; queue := queue s; thread := thread s;
   hasgrp := hasgrp s; gcount := gcount s; pending := pending s; pcs := pcs s; cancelled := cancelled s;
   bodies := bodies s; fin := fin s; ninv := ninv s; leaves := leaves s; nreg := nreg s; fcnt := fcnt s;
-  waiter := waiter s; qref := v; hands := h |}.
+  waiter := waiter s; qref := v; hands := h;
+  active := active s; pendsub := pendsub s; disposed := disposed s; dtor := dtor s; dleave := dleave s |}.
+
+Definition set_life s ps d dt dl := {| flags := flags s; performed := performed s; queue := queue s; thread := thread s;
+  hasgrp := hasgrp s; gcount := gcount s; pending := pending s; pcs := pcs s; cancelled := cancelled s;
+  bodies := bodies s; fin := fin s; ninv := ninv s; leaves := leaves s; nreg := nreg s; fcnt := fcnt s;
+  waiter := waiter s; qref := qref s; hands := hands s;
+  active := active s; pendsub := ps; disposed := d; dtor := dt; dleave := dl |}.
+Definition set_pend s ps := set_life s ps (disposed s) (dtor s) (dleave s).
 
 (* effect of the flags read at the entry of an invocation: a cancelled invocation is at `out:` immediately *)
 Definition entry_fx (s : gst) (f : Z) : gst :=
@@ -283,24 +331,38 @@ Definition take_queue (s : gst) (t : Z) : gst :=
 
 (* one step of thread t performing event e: the thread automaton accepts e, e is consistent with the memory and
    with the abstract group, and memory / group / ghost state are updated *)
+Definition is_dtor_of (s : gst) (t : Z) : bool := match dtor s with Some d => d =? t | None => false end.
+Definition sub_pend (v : variant) (s : gst) : gst := set_pend s (pendsub s + match v with VAsync => 1 | _ => 0 end).
 Definition gstep (s : gst) (t : Z) (e : event) : option gst :=
+  (* once the last reference is gone only the destroying thread, until it returns, may touch the object *)
+  if disposed s && negb (is_dtor_of s t && negb (pc_idle (pcs s t))) then None else
   match tstep t (pcs s t) e with
   | None => None
   | Some p' =>
     let s1 := set_pc s t p' in
     match pcs s t with
     | PIdle =>
-        if ev_kind e DVU_CALL then Some s1
-        else if ea e =? flags s then Some (entry_fx s1 (ea e)) else None
+        if ev_kind e DVU_CALL then
+          (if ea e =? OP_RELEASE
+           then (* the LAST reference: nobody is inside a call, no submission is queued; DBF_PERFORM records are C structs *)
+                match active s with
+                | [] => if hasgrp s && (pendsub s =? 0) then Some (set_life s1 (pendsub s) true (Some t) (dleave s)) else None
+                | _ => None
+                end
+           else Some s1)
+        else (* a worker enters _dispatch_block_async_invoke2 for a queued submission: the flags are read *)
+          if (ea e =? flags s) && (0 <? pendsub s) then Some (entry_fx (set_pend s1 (pendsub s - 1)) (ea e)) else None
     | PCrash => None
     | PRet _ => Some s1
     | PSubmit _ => Some (set_qref s1 (qref s + 2) (t :: hands s))
-    | PSubmitCas _ =>
-        (* strong CAS(NULL -> dq): succeeds iff the slot is NULL; reports the value observed *)
+    | PSubmitCas v =>
+        (* strong CAS(NULL -> dq): succeeds iff the slot is NULL; reports the value observed; the continuation is then
+           pushed on the queue (dispatch_async & co) *)
         if (ea e =? queue s) && (eok e =? (if queue s =? 0 then 1 else 0))
-        then Some (if queue s =? 0 then set_qref (set_queue s1 (eb e)) (qref s) (remove Z.eq_dec t (hands s)) else s1)
+        then Some (if queue s =? 0
+                   then sub_pend v (set_qref (set_queue s1 (eb e)) (qref s) (remove Z.eq_dec t (hands s))) else s1)
         else None
-    | PSubmitRel _ => Some (set_qref s1 (qref s - 2) (remove Z.eq_dec t (hands s)))
+    | PSubmitRel v => Some (sub_pend v (set_qref s1 (qref s - 2) (remove Z.eq_dec t (hands s))))
     | PInvRead _ => if ea e =? flags s then Some (entry_fx s1 (ea e)) else None
     | PSetThread _ => Some (set_thread s1 (eb e))
     | PBodyNext _ _ => Some (set_run s1 (bodies s + 1) (fin s))
@@ -340,6 +402,14 @@ Definition gstep (s : gst) (t : Z) (e : event) : option gst :=
         else None
     | PNotifyPerf => if u32 (ea e) =? performed s then Some s1 else None
     | PNotifyG => if hasgrp s then (if ek e =? DVG_NOTIFY then Some (notify_fx s1) else Some s1) else None
+    | PDtorPerf => if u32 (ea e) =? performed s then Some s1 else None
+    | PDtorLeave =>
+        if hasgrp s && Bool.eqb (Z.land (ea e) G_VALUE_MASK =? 0) (gcount s =? 0)
+        then (if gcount s =? 0 then Some s1
+              else Some (let s2 := leave_fx s1 in set_life s2 (pendsub s2) (disposed s2) (dtor s2) true))
+        else None
+    | PDtorPost => if is_grp e then Some s1 else if ea e =? queue s then Some (take_queue s1 t) else None
+    | PDtorRel => Some (set_qref s1 (qref s - 2) (remove Z.eq_dec t (hands s)))
     end
   end.
 
@@ -375,6 +445,9 @@ Definition latents (self : Z) (pf : bool) (p : pc) : list event :=
   | PWaitThread _ _ => [ev0 DV_LOAD MO_PLAIN OFF_THREAD 0 0; ev0 DV_LOAD MO_PLAIN OFF_THREAD 1 1]
   | PWaitG _ => [evg DVG_WAITRET 0; evg DVG_WAITRET 1]
   | PNotifyG => [evg DVG_NOTIFY 0]
+  | PDtorPerf => [ev0 DV_LOAD MO_PLAIN OFF_PERF 0 0; ev0 DV_LOAD MO_PLAIN OFF_PERF 1 1]
+  | PDtorPost => [ev0 DV_LOAD MO_PLAIN OFF_QUEUE 0 0; ev0 DV_LOAD MO_PLAIN OFF_QUEUE 1 1]
+  | PDtorRel => [ev0 DVQ_RELEASE2 0 0 0 0]
   | _ => []
   end.
 Definition is_latent (e : event) : bool :=
@@ -398,7 +471,6 @@ Fixpoint vrun (self : Z) (pf : bool) (ps : list pc) (tr : list event) (i : Z) : 
                 | ps' => vrun self pf ps' tr' (i + 1)
                 end
   end.
-Definition pc_idle (p : pc) : bool := match p with PIdle => true | _ => false end.
 (* for the correspondence driver: run one recorded per-thread trace (visible events only); result = (index of the
    first rejected event or -1, 1 if the thread can have ended outside any modelled function) *)
 Definition conform (self : Z) (pf : bool) (tr : list event) : Z * Z :=
@@ -411,7 +483,7 @@ Definition pc_tag (p : pc) : Z :=
   | PSetThread _ => 7 | PBodyNext _ _ => 8 | PInBody _ _ => 9 | PInc _ => 10 | PLeave _ => 11 | PPost _ false => 12
   | PPost _ true => 13 | PRel _ => 14 | PCancel => 15 | PTestRead => 16 | PWaitOr _ => 17 | PWaitXchg _ => 18
   | PWaitWake _ _ => 19 | PWaitThread _ _ => 20 | PWaitPerf _ _ _ => 21 | PWaitG _ => 22 | PWaitOut r => if r =? 0 then 23 else 24
-  | PNotifyPerf => 25 | PNotifyG => 26
+  | PNotifyPerf => 25 | PNotifyG => 26 | PDtorPerf => 27 | PDtorLeave => 28 | PDtorPost => 29 | PDtorRel => 30
   end.
 
 (* coverage: the transitions (program-point tag pairs) along the first accepting run of a recorded trace, latent steps
